@@ -262,6 +262,53 @@ def stream_scripts(blocks, rnd):
     return plain, noisy, restarts
 
 
+def export_roundtrip(binary, workdir, name, steps, cut, entry):
+    """steps[:cut] on chain X, export, then X goes on with steps[cut:]; chain Y is initialised from the export at the
+    next height and is fed the same steps[cut:]. The imported state must equal the exported one and the two chains must
+    stay equal (projected state after every later block)."""
+    exp = os.path.join(workdir, name + ".genesis.json")
+    rest = []
+    for st in steps[cut:]:
+        rest.append(st)
+        if st["op"] in ("block", "blocks"):
+            rest.append({"op": "state"})
+    out = []
+    rx = run_replica(binary, workdir, name, steps[:cut] + [{"op": "export", "to": exp}] + rest, "plain")
+    ex = [r for r in rx if r["op"] == "export"]
+    if not ex or not os.path.exists(exp) or not ex[0].get("state"):
+        entry["export"] = "failed"
+        return [{"formula": "C18_ExportSucceeds", "detail": "export failed on %s after step %d: %s" % (name, cut, [r.get("note") for r in rx][-1:]), "script": name}]
+    before = ex[0]["state"]
+    # the imported state is read first; then the one field known to be lost (the super-node cursor, see known_findings)
+    # is put back by hand, so that the rest of the continuation is still compared
+    ry = run_replica(binary, workdir, name + "i", [{"op": "state"}, {"op": "setround", "n": before.get("round", -1)}] + rest, "plain",
+                     genesis=exp, initial=before["h"] + 1)
+    sx = [r["state"] for r in rx if r["op"] == "state"]
+    sy = [r["state"] for r in ry if r["op"] == "state"]
+    res = {"height": before["h"], "import_diff": [], "continuation_diff": []}
+    if sy:
+        res["import_diff"] = state_diff(before, dict(sy[0], h=before["h"]))
+    # the continuation is compared when the import was exact up to that cursor: once any other field is lost, what follows
+    # differs in unbounded ways and says nothing new
+    if set(res["import_diff"]) <= {"round"}:
+        for i, (a, b) in enumerate(zip(sx, sy[1:])):
+            dd = state_diff(a, b)
+            if dd:
+                res["continuation_diff"] = [{"height": a["h"], "fields": dd}]
+                break
+    if any(r["op"] == "halt" for r in ry) and not any(r["op"] == "halt" for r in rx):
+        res["continuation_diff"].append({"halt": [r.get("note") for r in ry if r["op"] == "halt"]})
+    entry["export"] = res
+    if res["import_diff"]:
+        out.append({"formula": "C18_RoundTripState", "detail": json.dumps(res)[:500], "script": name, "fields": res["import_diff"]})
+    if res["continuation_diff"]:
+        out.append({"formula": "C18_ContinuationAgrees", "detail": json.dumps(res)[:500], "script": name,
+                    "fields": res["continuation_diff"][0].get("fields", ["halt"])})
+    for n2 in (name, name + "i"):
+        shutil.rmtree(os.path.join(workdir, n2, "db"), ignore_errors=True)
+    return out
+
+
 def random_streams(binary, workdir, tier, seed):
     import random
     rnd = random.Random(seed * 7919 + 13)
@@ -303,6 +350,12 @@ def random_streams(binary, workdir, tier, seed):
                         violations.append({"formula": formula, "detail": json.dumps({"stream": f, "diff": d})[:600], "script": name + tag})
                     shutil.rmtree(os.path.join(workdir, name + tag, "db"), ignore_errors=True)
                 shutil.rmtree(os.path.join(workdir, name + "a", "db"), ignore_errors=True)
+                # C18 on this stream: export after a random block, start a fresh chain from the export, feed both the rest
+                idx = [i for i, st in enumerate(plain) if st["op"] in ("block", "blocks")]
+                if len(idx) > 4:
+                    cut = rnd.choice(idx[2:-1]) + 1
+                    entry["export_after_step"] = cut
+                    violations += export_roundtrip(binary, workdir, name + "x", plain, cut, entry)
                 runs.append(entry)
     finally:
         CFG = saved
